@@ -149,6 +149,10 @@ func (l *InterceptingListener) getTlsConfigForClient(clientInfo *ClientInfo) fun
 				if err := proto.Unmarshal(reqBytes, serverCertsReq); err != nil {
 					return nil, fmt.Errorf("(%s) error unmarshaling common name value: %w", op, err)
 				}
+				// The request was decoded from bytes supplied by the remote
+				// peer; whether verification may be skipped is a local decision
+				// (made only in the fetch case above), never the peer's.
+				serverCertsReq.SkipVerification = false
 				protoToReturn = p
 
 			default:
